@@ -199,7 +199,7 @@ impl Insert {
         for values in self.new_rows.iter() {
             let keys: Vec<Value> = key_indices
                 .iter()
-                .map(|&index| values[index].clone())
+                .map(|&index| values[index].clone().into_stored())
                 .collect();
             if rows_map.contains_key(&keys) {
                 already_exists!(
@@ -220,7 +220,7 @@ impl Insert {
         for values in self.new_rows.into_iter() {
             let keys: Vec<Value> = key_indices
                 .iter()
-                .map(|&index| values[index].clone())
+                .map(|&index| values[index].clone().into_stored())
                 .collect();
             let row: Vec<ValueRef> = values
                 .into_iter()
